@@ -77,3 +77,94 @@ def audit_negative_terms(slice_, timeout):
 def audit_negative_terms__replay(slice_, cex):
     r = audit_negative_terms(slice_, 0)
     return {'reproduced': r['state'] == 'counterexample', 'detail': r['detail']}
+
+
+# ---- month / weekday / day-of-month tables of the other cultures -----------------------------------------------------------------
+MONTHS = {
+    'spanish': ['enero', 'febrero', 'marzo', 'abril', 'mayo', 'junio', 'julio', 'agosto', 'septiembre', 'octubre', 'noviembre', 'diciembre'],
+    'french': ['janvier', 'fevrier', 'mars', 'avril', 'mai', 'juin', 'juillet', 'aout', 'septembre', 'octobre', 'novembre', 'decembre'],
+    'portuguese': ['janeiro', 'fevereiro', 'marco', 'abril', 'maio', 'junho', 'julho', 'agosto', 'setembro', 'outubro', 'novembro', 'dezembro'],
+    'german': ['januar', 'februar', 'marz', 'april', 'mai', 'juni', 'juli', 'august', 'september', 'oktober', 'november', 'dezember'],
+    'italian': ['gennaio', 'febbraio', 'marzo', 'aprile', 'maggio', 'giugno', 'luglio', 'agosto', 'settembre', 'ottobre', 'novembre', 'dicembre'],
+    'dutch': ['januari', 'februari', 'maart', 'april', 'mei', 'juni', 'juli', 'augustus', 'september', 'oktober', 'november', 'december'],
+}
+# spellings that are not a prefix of the standard name (regional variants, contractions), each checked by hand
+MONTH_EXTRA = {
+    'spanish': {'setiembre': 9, 'set': 9, 'sept': 9},
+    'french': {'janv': 1, 'fevr': 2, 'juil': 7, 'jul': 7, 'jun': 6, 'sept': 9},
+    'portuguese': {'septembro': 9, 'sept': 9},
+    'german': {'janner': 1, 'jan': 1, 'feber': 2, 'juno': 6, 'julei': 7, 'sept': 9, 'mar': 3},
+    'italian': {'sett': 9},
+    'dutch': {'mrt': 3, 'mar': 3, 'oct': 10, 'sept': 9},
+}
+WEEKDAYS = {     # Monday = 1 .. Sunday = 0 (the convention of the tables)
+    'spanish': ['domingo', 'lunes', 'martes', 'miercoles', 'jueves', 'viernes', 'sabado'],
+    'french': ['dimanche', 'lundi', 'mardi', 'mercredi', 'jeudi', 'vendredi', 'samedi'],
+    'german': ['sonntag', 'montag', 'dienstag', 'mittwoch', 'donnerstag', 'freitag', 'samstag'],
+    'dutch': ['zondag', 'maandag', 'dinsdag', 'woensdag', 'donderdag', 'vrijdag', 'zaterdag'],
+    'italian': ['domenica', 'lunedi', 'martedi', 'mercoledi', 'giovedi', 'venerdi', 'sabato'],
+}
+GERMAN_ORD = ['erst', 'zweit', 'dritt', 'viert', 'funft', 'sechst', 'siebt', 'acht', 'neunt', 'zehnt', 'elft', 'zwolft']
+
+
+def _fold(s):
+    import unicodedata
+    s = s.replace('ß', 'ss')
+    return ''.join(c for c in unicodedata.normalize('NFD', s.lower()) if not unicodedata.combining(c)).strip('.')
+
+
+def audit_culture_tables(slice_, timeout):
+    """MonthOfYear (and DayOfMonth / DayOfWeek where the culture has them): every key denotes the number it maps to, by an
+    independent list of month / weekday names; numeric keys by their digits"""
+    import importlib
+    lang = slice_['lang']
+    m = importlib.import_module('recognizers_date_time.resources.%s_date_time' % lang)
+    env.assert_repo(m)
+    R = getattr(m, lang.capitalize() + 'DateTime')
+    bad, n = [], 0
+    names = MONTHS[lang]
+    for k, v in R.MonthOfYear.items():
+        n += 1
+        kk = _fold(k)
+        if kk.isdigit():
+            ok = int(kk) == v
+        elif lang == 'german' and kk.replace('ue', 'u').replace('oe', 'o') in GERMAN_ORD:
+            ok = GERMAN_ORD.index(kk.replace('ue', 'u').replace('oe', 'o')) + 1 == v
+        else:
+            ok = (1 <= v <= 12 and len(kk) >= 3 and names[v - 1].startswith(kk)) or MONTH_EXTRA[lang].get(kk) == v
+        if not ok or not 1 <= v <= 12:
+            bad.append(('MonthOfYear', k, v))
+    for k, v in dict(getattr(R, 'DayOfMonth', {})).items():
+        n += 1
+        lead = ''
+        for c in k:
+            if c.isdigit():
+                lead += c
+            else:
+                break
+        if lead:
+            if int(lead) != v or not 1 <= v <= 31:
+                bad.append(('DayOfMonth', k, v))
+    wd = WEEKDAYS.get(lang)
+    if wd:
+        english = ['sunday', 'monday', 'tuesday', 'wednesday', 'thursday', 'friday', 'saturday']
+        for k, v in dict(getattr(R, 'DayOfWeek', {})).items():
+            n += 1
+            kk = _fold(k)
+            cands = [i for i in range(7) if wd[i].startswith(kk) or english[i].startswith(kk) or kk.startswith(wd[i]) or (len(kk) >= 5 and kk[:5] == wd[i][:5])]
+            if lang == 'german' and kk == 'sonnabend':
+                cands = [6]
+            if lang == 'dutch' and kk in ('dins', 'woens', 'vrij', 'zat', 'zon', 'woe'):
+                cands = [i for i in range(7) if wd[i].startswith(kk[:2])]
+            if kk in ('tues', 'wedn', 'weds', 'thur', 'thurs'):
+                cands = [english.index(x) for x in english if x.startswith(kk[:2]) and (kk[:2] != 'th' or x.startswith('thu')) and (kk[:2] != 'tu' or x.startswith('tue'))]
+            if not (0 <= v <= 7) or (v % 7) not in cands:
+                bad.append(('DayOfWeek', k, v))
+    if bad:
+        return {'state': 'counterexample', 'detail': 'table entries disagree with the calendar: %r' % bad[:6], 'cex': {'bad': bad[:6], 'lang': lang}, 'queries': n}
+    return {'state': 'discharged', 'detail': 'audited %d table entries (%s)' % (n, lang), 'queries': n, 'sample': {'entries': n}}
+
+
+def audit_culture_tables__replay(slice_, cex):
+    r = audit_culture_tables(slice_, 0)
+    return {'reproduced': r['state'] == 'counterexample', 'detail': r['detail']}
